@@ -1,15 +1,19 @@
 import H2.Server.Lock.Recv
+import H2.Server.Lock.PerFrame
 import H2.Server.Abs.Limits
 /-!
 # Lockstep adapter: `Abs.Limits` beside the full server model
 
 Events per stream-loop action: `opened` when a stream is created; `hdrBytes` with the growth of the
-stream's header-list size when a HEADERS/CONTINUATION frame was handled and the stream is still in the table;
+stream's header-list size when a HEADERS/CONTINUATION frame was handled and the stream is still in the table, followed
+by `hdrTail` with the octets of an unfinished field the field loop was left with: what the stream holds afterwards, or,
+when the full model refused them (GOAWAY "header field exceeds …"), their number as the HPACK model decodes the
+fragment (`walkFrame`; 0 if that finds no such tail, so that the abstract model does not follow and the difference shows);
 `data` (octets of data, padding removed) when a DATA frame reaches the body-limit check; `dispatch`;
 `close` for every stream that left the table. Compared per action: what the dispatched request carries
 (body octets against the dispatch record, header-list size against the stream), a body-limit rejection
-against RST_STREAM(ENHANCE_YOUR_CALM), a header-list rejection against its GOAWAY; per step: `recvBody`,
-body length and header-list size of every stream in the table.
+against RST_STREAM(ENHANCE_YOUR_CALM), a header-list rejection and the rejection of an unfinished field against their
+GOAWAYs; per step: `recvBody`, body length, header-list size and held header octets of every stream in the table.
 -/
 namespace H2.Server.Lock
 open H2.Server.Abs
@@ -22,6 +26,8 @@ structure Limits.L where
 deriving Inhabited
 
 def Limits.L.init : Limits.L := {}
+
+def heldTag : String := "header field exceeds the maximum header list size"
 
 def limitsEvents (sub : Sub) : List Limits.Ev :=
   match sub.act with
@@ -38,7 +44,12 @@ def limitsEvents (sub : Sub) : List Limits.Ev :=
     let hdr : List Limits.Ev :=
       if fr.typ == Gen.c_FrameHeaders || fr.typ == Gen.c_FrameContinuation then
         match postSt with
-        | some p => [.hdrBytes fr.stream (p.hdrListSize - (preSt.map (·.hdrListSize)).getD 0)]
+        | some p =>
+          let refused := (goAwaysOf sub.out).any fun g => g.2.2 == heldTag
+          let tail : Nat :=
+            if refused then (match (walkFrame sub.pre preSt fr).1 with | .heldTooLong n => n | _ => 0)
+            else p.prevHdr.length
+          [.hdrBytes fr.stream (p.hdrListSize - (preSt.map (·.hdrListSize)).getD 0), .hdrTail fr.stream tail]
         | none => []
       else []
     let data : List Limits.Ev :=
@@ -53,8 +64,8 @@ def limitsEvents (sub : Sub) : List Limits.Ev :=
   | .done .. => if sub.pre.slStopped then [] else (closedIn sub.pre sub.post).map Limits.Ev.close
   | _ => []
 
-def limitsGauge (st : Limits.St) : String := s!"{st.tbl.map fun s => (s.id, s.recv, s.body, s.hdr)}"
-def limitsGaugeFull (s : Srv) : String := s!"{s.strms.map fun st => (st.id, st.recvBody, st.body.len, st.hdrListSize)}"
+def limitsGauge (st : Limits.St) : String := s!"{st.tbl.map fun s => (s.id, s.recv, s.body, s.hdr, s.held)}"
+def limitsGaugeFull (s : Srv) : String := s!"{s.strms.map fun st => (st.id, st.recvBody, st.body.len, st.hdrListSize, st.prevHdr.length)}"
 
 def Limits.L.step (l : Limits.L) (before : Srv) (ev : Event) (r : R) : Limits.L × Option String :=
   if !l.on then (l, none) else
@@ -76,9 +87,12 @@ def Limits.L.step (l : Limits.L) (before : Srv) (ev : Event) (r : R) : Limits.L 
           | .rst sid code => if code == Gen.c_EnhanceYourCalm then some sid else none | _ => none else []
       let hdrRej := new.any fun x => match x with | .hdrTooLarge _ => true | _ => false
       let fullHdrRej := (goAwaysOf sub.out).any fun g => g.2.2 == "header list exceeds the maximum size"
-      let ok := handed == fullHanded && handedHdr == fullHdr && bodyRej == fullBodyRej && hdrRej == fullHdrRej
+      let fieldRej := new.any fun x => match x with | .fieldTooLarge _ => true | _ => false
+      let fullFieldRej := (goAwaysOf sub.out).any fun g => g.2.2 == heldTag
+      let ok := handed == fullHanded && handedHdr == fullHdr && bodyRej == fullBodyRej && hdrRej == fullHdrRej &&
+        fieldRej == fullFieldRej
       (st', if ok || acc.2.isSome then acc.2
-            else some s!"limits handed={handed}/{fullHanded} hdr={handedHdr}/{fullHdr} bodyRej={bodyRej}/{fullBodyRej} hdrRej={hdrRej}/{fullHdrRej}")) (l.st, none)
+            else some s!"limits handed={handed}/{fullHanded} hdr={handedHdr}/{fullHdr} bodyRej={bodyRej}/{fullBodyRej} hdrRej={hdrRej}/{fullHdrRej} fieldRej={fieldRej}/{fullFieldRej}")) (l.st, none)
   match bad with
   | some m => ({ l with st := st, on := false }, some m)
   | none =>
